@@ -634,9 +634,14 @@ SUGARS = [sugar_pos_to_named, sugar_field_shorthand, sugar_value, sugar_call_as_
           sugar_split_disjunction, sugar_value_aggregation]
 
 
-def c11_pairs(seed):
+def c11_expr_pairs(seed):
+  """the `exprs` family (else-if chains, nested negations) under every applicable sugar."""
+  return c11_pairs(seed, gen.exprs_case(seed))
+
+
+def c11_pairs(seed, case=None):
   rnd = random.Random(seed ^ 0xc11)
-  case = base_case(seed, ('core', 'agg', 'agg', 'sugarbase'))
+  case = case or base_case(seed, ('core', 'agg', 'agg', 'sugarbase'))
   prog = case.prog
   cands = list(SUGARS)
   rnd.shuffle(cands)
@@ -654,7 +659,7 @@ def c11_pairs(seed):
                         nullable=case.nullable,
                         label='%s/%s/%s' % (case.family, case.notes, sugar.__name__)))
     made += 1
-    if made >= (12 if case.family == 'sugarbase' else 3):
+    if made >= (12 if case.family in ('sugarbase', 'exprs') else 3):
       break
   return pairs
 
